@@ -133,13 +133,16 @@ func c02Expect(nodes []TNode, ignore bool) (rules []ref.GRule) {
 	return
 }
 
+// secOK: "rounded to the second" is rounding to the NEAREST second (what archive/tar does to a
+// header's time, halves away from zero). Truncation is not rounding: an implementation that
+// truncates some entries (say, the ones that need an extended header) and rounds the others
+// returns times a second apart for equal sources.
 func secOK(srcSec, srcNsec, got int64) bool {
-	floor := srcSec
 	nearest := srcSec
 	if srcNsec >= 500000000 {
 		nearest++
 	}
-	return got == floor || got == nearest
+	return got == nearest
 }
 
 // checkC02 compares the source tree with the unpacked tree.
@@ -792,7 +795,7 @@ func RunPackTrees(id, tier string) int {
 	case "C05":
 		rep.Rule = "fixed skeleton (content of every file = its own path, so provenance is readable from the bytes) + every set of <=k links over 33 (position,target) pairs × {deref} × {allow-list} × {ignore}; oracles: provenance of every regular entry, no stored link that physically resolves outside, relative link entries stay inside the archive root, Unpack accepts the result, out-of-tree link without deref ⇒ IllegalSlugError."
 	}
-	rep.Assumptions = []string{"mtime 'rounded to the second' accepts floor or nearest", "a Pack error other than the policy rejection (e.g. unreadable file for uid 65534) is no verdict", "directories excluded by a trailing-/ rule may or may not exist after Unpack"}
+	rep.Assumptions = []string{"mtime 'rounded to the second' = nearest second (or the exact source time, unrounded)", "a Pack error other than the policy rejection (e.g. unreadable file for uid 65534) is no verdict", "directories excluded by a trailing-/ rule may or may not exist after Unpack"}
 	return rep.Finish()
 }
 
